@@ -1637,6 +1637,19 @@ package runtime
 //@   ensures result == n || (result == 0 && r.err != nil)
 //@   ensures old(r.err) != nil ==> result == 0
 
+// The budget for the items is taken before the size is validated (so that a
+// size beyond the budget is reported as 'budget consumed', like any other
+// shortage), and both happen before anything is allocated.
+//@ func (*breader).sizeFor
+//@   prop C06 C04
+//@   arith int
+//@   requires r != nil && 0 <= max && max <= 1099511627776 && 1 <= elemSize && elemSize <= 8
+//@   modifies r.err, r.budget
+//@   exits any
+//@   ensures 0 <= result && result <= max
+//@   ensures result == n || (result == 0 && r.err != nil)
+//@   ensures old(r.err) == nil && old(r.budget) != 0 && 0 <= n ==> r.budget == old(r.budget) - n * elemSize
+
 //@ func (*breader).read
 //@   trusted
 //@   requires r != nil
